@@ -95,3 +95,12 @@ Proof. exact (C02_generator_run_all generator_cfg_v run_tables_v). Qed.
 Print Assumptions C02_use_generator_run_no_new_names.
 Example C02_kernel_run_branch : ug_nested generator_cfg_v && ug_updated_parts generator_cfg_v = true.
 Proof. reflexivity. Qed.
+
+(** str-concat-in-sequence-literals introduces no name *)
+From CM Require Import Proofs.StrConcatFacts.
+Theorem C02_kernel_str_concat_names_all : forall cfg e, incl_str (names (rw_str_concat cfg e)) (names e ++ builtin_names).
+Proof. exact str_concat_names. Qed.
+Print Assumptions C02_kernel_str_concat_names_all.
+Theorem C02_str_concat_run_no_new_names : C02_kernel_run_statement (rw_str_concat str_concat_cfg_v) run_tables_v.
+Proof. exact (C02_kernel_run_all _ (str_concat_names str_concat_cfg_v) run_tables_v). Qed.
+Print Assumptions C02_str_concat_run_no_new_names.
